@@ -201,7 +201,13 @@ def plan():
                  covers=["upper bound attained exactly (last block stored raw)"], funcs=["serialize.rs::CompressedStreamWriter::{with_block_threshold,serialized_len_upperbound_after,append,flush_block,finish}"],
                  cuts=["zstd = any-length codec model (compress returns any length <= input, or fails)"], bounds={"block_threshold": thr, "items": f"{n} byte-array items of lengths {[a, b, c][:n]} (each <= one block), contents symbolic"},
                  desc="finished stream never longer than the upper bound announced before the last append", mem=14)
-    P["C07"] = [ser_ub(3, 5, 3, 8, 3, ("quick", "thorough")), ser_ub(6, 7, 1, 8, 2, ("quick", "thorough")), ser_ub(8, 8, 1, 8, 3, ("quick", "thorough")), ser_ub(8, 8, 8, 8, 3, ("thorough",)), snd_content(0b011, ("quick", "thorough")),
+    def syn_budget(n, tiers):
+        return H(f"lib_syn_budget_{n}", f"lib_syn_budget({n})", mod="lib", macro="h_lib_contract", unwind=4, tiers=tiers, rules=R_COMMON, covers=["a SYN-ACK can fill the datagram exactly"],
+                 funcs=["lib.rs::Chitchat::process_message (Syn arm: budget = limit - header - own digest)", "message.rs::ChitchatMessage::serialized_len", "digest.rs::Digest::serialized_len"],
+                 cuts=[CUT_LISTENER, "ClusterState::compute_partial_delta_respecting_mtu replaced by its contract: returns a delta of ANY announced length in 1..=mtu (what ser_ub_*/snd_full_* establish for the real one)",
+                       "Chitchat::compute_digest replaced by 'any digest of %d member(s)' (its real serialized_len is used)" % n],
+                 bounds={"own_digest_members": n, "peer_digest": "empty", "delta_length": "symbolic 1..=budget"}, desc="SYN-ACK of the real process_message fits 65,507 bytes whenever the delta respects the budget it is handed (finding O-1, fixed)", mem=22, timeout=2400)
+    P["C07"] = [syn_budget(1, ("quick", "thorough")), syn_budget(2, ("thorough",)), ser_ub(3, 5, 3, 8, 3, ("quick", "thorough")), ser_ub(6, 7, 1, 8, 2, ("quick", "thorough")), ser_ub(8, 8, 1, 8, 3, ("quick", "thorough")), ser_ub(8, 8, 8, 8, 3, ("thorough",)), snd_content(0b011, ("quick", "thorough")),
                 snd_decision(False, ("quick", "thorough")), ser_ub(1, 1, 1, 8, 3, ("thorough",)), ser_ub(7, 2, 8, 8, 3, ("thorough",)), ser_ub(16, 3, 14, 16, 3, ("thorough",)), ser_ub(5, 12, 16, 16, 3, ("thorough",)),
                 snd_content(0b111, ("thorough",)), snd_content(0b001, ("thorough",)), snd_content(0b101, ("thorough",)), snd_decision(True, ("thorough",)),
                 snd_full(0b000), snd_full(0b001)]
